@@ -20,6 +20,9 @@ persist  G3/O3  the same machinery with '..' routes, save_as forms, slash/space/
 """
 import fnmatch
 import glob
+import itertools
+import shutil
+import tempfile
 import logging
 import os
 import shlex
@@ -1264,7 +1267,148 @@ def strat_persist(tier):
 
 # =================================================================================================
 
+
+# ---- end to end: insights.collect.collect() with a deny list ---------------------------------------
+
+_E2E_COUNTER = itertools.count()
+
+
+def check_collect(case):
+    """A complete host collection through collect.collect(): manifest (default enabled/disabled, configs that
+    enable the spec classes by prefix) + the user's deny list (component names, literal files, literal
+    commands).  Nothing denied may be read into the archive, opened or executed; what is not denied is."""
+    import textwrap
+    from insights import collect
+    uid = next(_E2E_COUNTER)
+    modname = "vp_dyn_c06e2e_%d_%d" % (os.getpid(), uid)
+    work = tempfile.mkdtemp(prefix="vp-c06e2e-")
+    labels = []
+    try:
+        src, out, mods = [os.path.join(work, d) for d in ("src", "out", "mods")]
+        for d in (src, out, mods):
+            os.makedirs(d)
+        specs = case["specs"]          # [{"kind": "file"|"cmd", "deny": None|"component"|"literal"|"point"}]
+        paths, markers = [], []
+        body = ["from insights.core.spec_factory import RegistryPoint, SpecSet, simple_command, simple_file", "",
+                "class Specs(SpecSet):"]
+        for k, sp in enumerate(specs):
+            body.append("    s%d = RegistryPoint()" % k)
+        body += ["", "class Impl(Specs):"]
+        for k, sp in enumerate(specs):
+            if sp["kind"] == "file":
+                pth = os.path.join(src, "f%d.conf" % k)
+                with open(pth, "w") as f:
+                    f.write("content of spec %d\nSECRET%d\n" % (k, k))
+                paths.append(pth)
+                markers.append(None)
+                body.append("    s%d = simple_file(%r)" % (k, pth))
+            else:
+                mk = os.path.join(src, "marker%d" % k)
+                paths.append(None)
+                markers.append(mk)
+                body.append("    s%d = simple_command(%r)" % (k, "/usr/bin/touch " + mk))
+        with open(os.path.join(mods, modname + ".py"), "w") as f:
+            f.write("\n".join(body) + "\n")
+        rm_conf = {"files": [], "commands": [], "components": []}
+        denied = set()
+        for k, sp in enumerate(specs):
+            if sp["deny"] == "component":
+                rm_conf["components"].append("%s.Impl.s%d" % (modname, k))
+                denied.add(k)
+            elif sp["deny"] == "literal":
+                if sp["kind"] == "file":
+                    rm_conf["files"].append(paths[k])
+                else:
+                    rm_conf["commands"].append("/usr/bin/touch " + markers[k])
+                denied.add(k)
+        cfg_style = case["configs"]
+        configs = [{"name": "insights.core.spec_factory", "enabled": True}]
+        if cfg_style == "module":
+            configs.append({"name": modname, "enabled": True})
+        elif cfg_style == "classes":
+            configs += [{"name": modname + ".Specs", "enabled": True}, {"name": modname + ".Impl", "enabled": True}]
+        else:
+            for k in range(len(specs)):
+                configs += [{"name": "%s.Specs.s%d" % (modname, k), "enabled": True},
+                            {"name": "%s.Impl.s%d" % (modname, k), "enabled": True}]
+        manifest = {"version": 0,
+                    "client": {"context": {"class": "insights.core.context.HostContext", "args": {"timeout": 10}},
+                               "blacklist": {"files": [], "commands": [], "patterns": [], "keywords": []},
+                               "persist": [{"name": modname + ".Specs", "enabled": True}],
+                               "run_strategy": {"name": "serial", "args": {"max_workers": None}}},
+                    "plugins": {"default_component_enabled": False, "packages": [modname], "configs": configs}}
+        sys.path.insert(0, mods)
+        with GlobalState(module_prefix="vp_dyn_"):
+            from insights.core import dr
+            saved_enabled = dr.ENABLED
+            saved_items = dict(saved_enabled)
+            try:
+                with audit_trace(needles=[src]) as events:
+                    output_path, _errors = collect.collect(rm_conf=rm_conf, tmp_path=out, archive_name="archive",
+                                                           manifest=manifest)
+            finally:
+                dr.ENABLED = saved_enabled
+                for key in list(saved_enabled.keys()):
+                    if key not in saved_items:
+                        del saved_enabled[key]
+                saved_enabled.update(saved_items)
+        data = os.path.join(output_path, "data")
+        everything = []
+        for dp, _dn, fns in os.walk(output_path):
+            for fn in fns:
+                try:
+                    with open(os.path.join(dp, fn), "rb") as f:
+                        everything.append((os.path.join(dp, fn), f.read()))
+                except (IOError, OSError):
+                    pass
+        collected_any = False
+        for k, sp in enumerate(specs):
+            if sp["kind"] == "file":
+                leaked = [p_ for p_, b_ in everything if ("SECRET%d" % k).encode() in b_]
+                opened = [e for e in events if e.get("event") == "open" and e.get("path") == paths[k]]
+                if k in denied:
+                    if leaked:
+                        raise Violation("the content of a file spec on the deny list (%s) was collected into the "
+                                        "archive: %s" % (sp["deny"], leaked[0]), rm_conf=rm_conf, configs=configs)
+                    if opened:
+                        raise Violation("a file on the deny list (%s) was opened during collection" % sp["deny"],
+                                        path=paths[k], rm_conf=rm_conf)
+                elif leaked:
+                    collected_any = True
+            else:
+                ran = os.path.exists(markers[k])
+                if k in denied and ran:
+                    raise Violation("the command of a spec on the deny list (%s) was executed during collection"
+                                    % sp["deny"], command="/usr/bin/touch " + markers[k], rm_conf=rm_conf, configs=configs)
+                if k not in denied and ran:
+                    collected_any = True
+        allowed = [k for k in range(len(specs)) if k not in denied]
+        if allowed and not collected_any:
+            raise HarnessError("nothing was collected although %d specs are not denied" % len(allowed))
+        labels = ["configs=" + cfg_style] + sorted(set("deny=%s/%s" % (sp["deny"], sp["kind"]) for sp in specs))
+        return {"nontrivial": bool(denied) and bool(allowed), "labels": labels}
+    finally:
+        if sys.path and sys.path[0] == os.path.join(work, "mods"):
+            sys.path.pop(0)
+        for m in [m for m in sys.modules if m.startswith("vp_dyn_c06e2e_")]:
+            sys.modules.pop(m, None)
+        shutil.rmtree(work, ignore_errors=True)
+
+
+@st.composite
+def _collect_case(draw):
+    specs = draw(st.lists(st.fixed_dictionaries({"kind": st.sampled_from(["file", "file", "cmd"]),
+                                                 "deny": st.sampled_from([None, None, "component", "component", "literal"])}),
+                          min_size=2, max_size=5))
+    return {"specs": specs, "configs": draw(st.sampled_from(["module", "classes", "each"]))}
+
+
+def strat_collect(tier):
+    return _collect_case()
+
+
 SUBS = [
+    Sub("collect", check_collect, strategy=strat_collect, quick=120, thorough=1500, workers_quick=4, workers_thorough=8),
     Sub("contain", check_contain, strategy=strat_contain, quick=500, thorough=4000, workers_quick=4),
     Sub("deny", check_deny, strategy=strat_deny, quick=300, thorough=2500, workers_quick=4),
     Sub("persist", check_persist, strategy=strat_persist, quick=200, thorough=2000, workers_quick=4),
